@@ -302,4 +302,59 @@ theorem atoi_natToDec (n : Nat) (hn : n < 9223372036854775808) : atoi (natToDec 
     rw [hd] at h3
     simp [atoi, hb.2.2.2.2.2.1, hb.2.2.2.2.2.2, atoiUnsigned, hall, h3, hn]
 
+
+theorem padOK_iff (p : Bytes) : padOK p = true ↔ ∀ b ∈ p, isAsciiWs b = true ∧ b ≠ LF := by
+  simp [padOK]
+
+theorem padOK_allWs {p : Bytes} (h : padOK p = true) : allWs p := fun b hb => ((padOK_iff p).mp h b hb).1
+
+theorem padOK_noLF {p : Bytes} (h : padOK p = true) : LF ∉ p := fun hb => ((padOK_iff p).mp h _ hb).2 rfl
+
+theorem ws_ne_colon {b : UInt8} (h : isAsciiWs b = true) : b ≠ COLON := by
+  intro e; subst e; simp [isAsciiWs, COLON] at h
+
+theorem padOK_noColon {p : Bytes} (h : padOK p = true) : COLON ∉ p := fun hb => ws_ne_colon (((padOK_iff p).mp h _ hb).1) rfl
+
+theorem allWs_append {p q : Bytes} (hp : allWs p) (hq : allWs q) : allWs (p ++ q) := by
+  intro b hb; rcases List.mem_append.mp hb with h | h
+  · exact hp b h
+  · exact hq b h
+
+theorem allWs_LF : allWs [LF] := by intro b hb; rw [List.mem_singleton.mp hb]; rfl
+
+theorem noLF_iff (s : Bytes) : noLF s = true ↔ LF ∉ s := by simp [noLF]
+
+/-- `util.DecodeHeader` reads back a rendered header line -/
+theorem decodeHeader_render (k v i1 i2 i3 i4 : Bytes) (hk : hdrKeyOK k = true) (hv : hdrValOK v = true)
+    (h1 : padOK i1 = true) (h2 : padOK i2 = true) (h3 : padOK i3 = true) (h4 : padOK i4 = true) :
+    decodeHeader (LBR :: (i1 ++ k ++ i2 ++ COLON :: (i3 ++ v ++ i4 ++ [RBR]))) = .ok (k, v) := by
+  simp only [hdrKeyOK, hdrValOK, edgesOK, Bool.and_eq_true, beq_iff_eq, Bool.not_eq_true', noLF] at hk hv
+  obtain ⟨⟨⟨hk1, hk2⟩, hk3⟩, hk4, hk5⟩ := hk
+  obtain ⟨hv2, hv4, hv5⟩ := hv
+  have hcut : cut COLON ((LBR :: (i1 ++ k ++ i2 ++ COLON :: (i3 ++ v ++ i4 ++ [RBR]))).drop 1).dropLast
+      = (i1 ++ k ++ i2, i3 ++ v ++ i4, true) := by
+    have : ((LBR :: (i1 ++ k ++ i2 ++ COLON :: (i3 ++ v ++ i4 ++ [RBR]))).drop 1).dropLast
+        = (i1 ++ k ++ i2) ++ COLON :: (i3 ++ v ++ i4) := by
+      simp only [List.drop_one, List.tail_cons]
+      rw [show i1 ++ k ++ i2 ++ COLON :: (i3 ++ v ++ i4 ++ [RBR]) = (i1 ++ k ++ i2 ++ COLON :: (i3 ++ v ++ i4)) ++ [RBR] by simp]
+      exact List.dropLast_concat
+    rw [this]
+    apply cut_append_sep
+    intro hm
+    rcases List.mem_append.mp hm with hm | hm
+    · rcases List.mem_append.mp hm with hm | hm
+      · exact padOK_noColon h1 hm
+      · simp at hk3; exact hk3 hm
+    · exact padOK_noColon h2 hm
+  unfold decodeHeader
+  have hlast : (LBR :: (i1 ++ k ++ i2 ++ COLON :: (i3 ++ v ++ i4 ++ [RBR]))).getLast? = some RBR := by
+    rw [show LBR :: (i1 ++ k ++ i2 ++ COLON :: (i3 ++ v ++ i4 ++ [RBR])) = (LBR :: (i1 ++ k ++ i2 ++ COLON :: (i3 ++ v ++ i4))) ++ [RBR] by simp]
+    exact List.getLast?_concat
+  have tk : trimSpace (i1 ++ k ++ i2) = k := trimSpace_pad i1 k i2 (padOK_allWs h1) (padOK_allWs h2) hk4 hk5
+  have tv : trimSpace (i3 ++ v ++ i4) = v := trimSpace_pad i3 v i4 (padOK_allWs h3) (padOK_allWs h4) hv4 hv5
+  rw [hcut]
+  simp only [hlast, tk, tv]
+  simp [hk1]
+  omega
+
 end Pandora.Proofs.C07
